@@ -270,6 +270,71 @@ func TestC18Histograms(t *testing.T) {
 	})
 }
 
+// TestC18Stale: consecutive full periods (more observations than the sample
+// ring holds) whose values come from disjoint ranges, shaped so that a sample
+// slot left over from an earlier period would sort to a rank that is reported:
+// the last ring-full of a period consists of j values below every earlier
+// period's values and ringSize-j values above them, with j at or next to a
+// reported rank.  Oracle as for every period: count, exact min/max, every
+// percentile one of this period's observations.
+func TestC18Stale(t *testing.T) {
+	c18Setup()
+	rec := evid.For("C18")
+	const ring = 32768
+	rapid.Check(t, func(t *rapid.T) {
+		readMetrics()
+		periods := rapid.IntRange(3, 5).Draw(t, "periods")
+		var shape []string
+		for p := 0; p < periods; p++ {
+			n := ring + rapid.SampledFrom([]int{0, 0, 1, 2, 100, ring / 2, ring, ring + 1}).Draw(t, "extra")
+			// reported ranks of a full ring: k*ring/20, 99 %, 99.9 %; j next to one of them or anywhere
+			var j int
+			switch rapid.IntRange(0, 3).Draw(t, "rankKind") {
+			case 0:
+				j = rapid.IntRange(0, ring).Draw(t, "anyRank")
+			case 1:
+				j = ring*99/100 + rapid.IntRange(-2, 2).Draw(t, "off")
+			case 2:
+				j = ring*999/1000 + rapid.IntRange(-2, 2).Draw(t, "off")
+			default:
+				j = ring*rapid.IntRange(1, 19).Draw(t, "twentieth")/20 + rapid.IntRange(-2, 2).Draw(t, "off")
+			}
+			if j < 0 {
+				j = 0
+			}
+			if j > ring {
+				j = ring
+			}
+			// this period's values: low ones in [p*2^20, p*2^20+2^19), high ones from 2^50+(p+1)*2^40 up:
+			// every earlier period's high values lie between this period's low and high values
+			low := uint64(p) << 20
+			high := uint64(1)<<50 + uint64(p+1)<<40
+			obs := make([]uint64, 0, n)
+			for i := 0; i < n-ring; i++ {
+				obs = append(obs, high+uint64(i%1000))
+			}
+			for i := 0; i < j; i++ {
+				obs = append(obs, low+uint64(i%500000))
+			}
+			for i := 0; i < ring-j; i++ {
+				obs = append(obs, high+1000+uint64(i%1000))
+			}
+			for _, o := range obs {
+				metrics.ObserveHist(c18Hist, o)
+			}
+			hp := readHist(readMetrics(), "verif_c18_plain")
+			if msg := checkPeriod(hp, obs, false); msg != "" {
+				t.Fatalf("C18 stale-sample check, period %d of %v+[n=%d, %d low values in the last %d]: %s; percentiles %v", p, shape, n, j, ring, msg, hp.Pctls)
+			}
+			shape = append(shape, fmt.Sprintf("n=%d/low=%d", n, j))
+		}
+		rec.Case(true, "stale|"+strings.Join(shape, "|"), "hist-consecutive-full-periods")
+		if rec.WantSample(true) {
+			rec.Sample(true, map[string]interface{}{"consecutive_full_periods": shape})
+		}
+	})
+}
+
 // TestC18Concurrent: concurrent observers and a concurrent reader; no
 // observation may be lost or double counted across the buffer swap.
 func TestC18Concurrent(t *testing.T) {
